@@ -181,6 +181,11 @@ def cmpAllowed (st : Store) (a b : Val) : Bool :=
   | _, _ =>
     match seqItems st a, seqItems st b with
     | some xs, some ys => (xs.zip ys).all fun p => p.1.ty = p.2.ty
+    | some xs, none =>
+      -- a sequence against a Table / Tree: its elements meet the keys (KF-C10-seq-map-eq)
+      match mapEntries b with
+      | some es => (xs.zip es).all fun p => p.1.ty = p.2.1.ty
+      | none => false
     | _, _ =>
       match a, b with
       | .table ka va _, .table kb vb _ => ka = kb && va = vb
@@ -194,6 +199,7 @@ def assignAllowed (y x : Val) : Bool :=
   match y, x with
   | .sc a, .sc b => a.ty = b.ty
   | .seq _ _ _, .seq _ _ _ => true
+  | .seq _ _ _, .tuple _ => true      -- Array / List from a Tuple: KF-C10-assign-from-tuple
   | .tuple _, .tuple _ => true
   | _, _ => isMapVal y && isMapVal x
 
@@ -307,7 +313,8 @@ def step (st : Store) (stats : Stats) (toks : List String) : IO (Store × Stats)
       if isLive st id then bad
       else if c = .embedded && (isPtr s || s.ty = .typ) then bad
       else
-        let st := bind st id ⟨c, .sc s⟩
+        -- a String on the stack is `$S("…")`: its characters are not the allocator's
+        let st := bind st id ⟨c, .sc s, if c = .stack then .stack else .heap⟩
         observe st "new" id none; return (st, stats)
     | _, _, _ => bad
   | op :: ids :: cls :: ety :: specs =>
@@ -318,7 +325,7 @@ def step (st : Store) (stats : Stats) (toks : List String) : IO (Store × Stats)
         match specs.mapM (parseSpec st) with
         | some items =>
           if items.all (·.ty = ty) then
-            let st := bind st id ⟨c, .seq (if op = "arr" then .array else .list) ty items⟩
+            let st := bind st id ⟨c, .seq (if op = "arr" then .array else .list) ty items, .heap⟩
             observe st op id none; return (st, stats)
           else bad
         | none => bad
@@ -339,7 +346,7 @@ def step (st : Store) (stats : Stats) (toks : List String) : IO (Store × Stats)
             if op = "tre" && !(treeTyOk kt && treeTyOk vt) then bad else
             if es.all (fun e => e.1.ty = kt && e.2.ty = vt) then
               let v := if op = "tab" then Val.table kt vt (tableOfEntriesW addr (layoutOf kt vt) es) else Val.tree kt vt (shOfEntries addr es)
-              let st := bind st id ⟨c, v⟩
+              let st := bind st id ⟨c, v, .heap⟩
               observe st op id none; return (st, stats)
             else bad
           | none => bad
@@ -349,7 +356,8 @@ def step (st : Store) (stats : Stats) (toks : List String) : IO (Store × Stats)
       | some id, some c, some items =>
         if isLive st id || !items.all (tupleItemOk st) || !items.Nodup then bad
         else
-          let st := bind st id ⟨c, .tuple items⟩
+          -- a Tuple on the stack is `tuple(…)`: its pointer array lies in the frame
+          let st := bind st id ⟨c, .tuple items, if c = .stack then .stack else .heap⟩
           observe st op id none; return (st, stats)
       | _, _, _ => bad
     else bad
@@ -357,17 +365,18 @@ def step (st : Store) (stats : Stats) (toks : List String) : IO (Store × Stats)
     if op = "tup" then
       match parseId a, parseCls b false with
       | some id, some c => if isLive st id then bad else
-        let st := bind st id ⟨c, .tuple []⟩
+        let st := bind st id ⟨c, .tuple [], if c = .stack then .stack else .heap⟩
         observe st op id none; return (st, stats)
       | _, _ => bad
     else if op = "put" then
       match parseId a with
       | some id =>
         match st.get id, parseSpec st b with
-        | some ⟨c, .sc cur⟩, some s =>
+        | some ⟨c, .sc cur, bf⟩, some s =>
           if cur.ty ≠ s.ty then bad else
-          match assignVal addr st c (.sc cur) (.sc s) with
-          | .ok v => let st := setVal st id v; observe st op id none; return (st, stats)
+          match assignObj addr st ⟨c, .sc cur, bf⟩ (.sc s) with
+          | .ok o => let st := st.setIfInBounds id (some o); observe st op id none; return (st, stats)
+          | .error .undefined => IO.println s!"O {op} {id} undefined"; return (st, stats)
           | .error e => observe st op id (some e); return (st, stats)
         | _, _ => bad
       | none => bad
@@ -380,7 +389,7 @@ def step (st : Store) (stats : Stats) (toks : List String) : IO (Store × Stats)
       | some c, some d =>
         if c = d then bad else
         match st.get c, st.get d with
-        | some ⟨_, .seq k ety xs⟩, some ⟨_, .seq _ ety' ys⟩ =>
+        | some ⟨_, .seq k ety xs, _⟩, some ⟨_, .seq _ ety' ys, _⟩ =>
           if ety ≠ ety' then bad else
           let st := setVal st c (.seq k ety (xs ++ ys)); observe st op c none; return (st, stats)
         | _, _ => bad
@@ -417,17 +426,17 @@ def step (st : Store) (stats : Stats) (toks : List String) : IO (Store × Stats)
       match parseId a, parseSpec st b with
       | some cid, some s =>
         match st.get cid with
-        | some ⟨_, .table kt _ t⟩ =>
+        | some ⟨_, .table kt _ t, _⟩ =>
           if s.ty ≠ kt then bad else
           match tableGet addr t s with
           | some v => IO.println s!"O has {cid} m=1 g={dumpScalar v}"; return (st, { stats with lookups := stats.lookups + 1 })
           | none => IO.println s!"O has {cid} m=0 g=KeyError"; return (st, { stats with lookups := stats.lookups + 1 })
-        | some ⟨_, .tree kt _ t⟩ =>
+        | some ⟨_, .tree kt _ t, _⟩ =>
           if s.ty ≠ kt then bad else
           match shGet addr t s with
           | some v => IO.println s!"O has {cid} m=1 g={dumpScalar v}"; return (st, { stats with lookups := stats.lookups + 1 })
           | none => IO.println s!"O has {cid} m=0 g=KeyError"; return (st, { stats with lookups := stats.lookups + 1 })
-        | some ⟨_, v⟩ =>
+        | some ⟨_, v, _⟩ =>
           match seqItems st v with
           | some items =>
             if !items.all (·.ty = s.ty) then bad else
@@ -454,11 +463,13 @@ def step (st : Store) (stats : Stats) (toks : List String) : IO (Store × Stats)
       | some y, some x =>
         if x = y && iscopy then bad else
         if x = y then
-          -- assign(x, x): every kind but a String (whose buffer is reallocated and then copied from the old pointer)
+          -- assign(x, x): every kind (a String returns at once: fix 744a45f). A Tuple reallocates its pointer array first.
           match st.get x with
           | none => bad
           | some ox =>
-            if (match ox.val with | .sc (.str _) => true | _ => false) then bad else
+            if (match ox.val with | .tuple _ => !ox.ownsBuffer | _ => false) then do
+              IO.println s!"O {op} {x} undefined"; return (st, stats)
+            else
             let r := assignSelfVal addr st ox.cls ox.val
             let (st, e) := match r with
               | .ok v => (setVal st x v, none)
@@ -485,18 +496,24 @@ def step (st : Store) (stats : Stats) (toks : List String) : IO (Store × Stats)
           match target with
           | none => bad
           | some (cls, self) =>
-            let r := if iscopy then copyVal addr st ox.val else assignVal addr st cls self ox.val
+            let foreign := !iscopy && (match st.get y with | some oy => !oy.ownsBuffer | none => false)
+            let fromTuple := (match self, ox.val with | .seq _ _ _, .tuple _ => true | _, _ => false)
+            let r := if iscopy then copyVal addr st ox.val else if foreign then .error .undefined else assignVal addr st cls self ox.val
             match r, iscopy with
             | .error e, true => IO.println s!"O {op} {y} {x} {e.name}"; return (st, stats)
+            | .error .undefined, false => IO.println s!"O {op} {y} undefined"; return (st, stats)
             | _, _ =>
               let (st, e) := match r with
-                | .ok v => (if iscopy then bind st y ⟨.heap, v⟩ else setVal st y v, none)
+                | .ok v => (if iscopy then bind st y ⟨.heap, v, .heap⟩
+                            else match st.get y with
+                              | some oy => st.setIfInBounds y (some { oy with val := v, buf := if oy.val.hasBuffer then .heap else oy.buf })
+                              | none => st, none)
                 | .error e => (st, some e)
               match st.get y with
               | none => bad
               | some oy =>
                 let cs :=
-                  if nocmp || !cmpAllowed st oy.val ox.val then "-" else
+                  if nocmp || !(cmpAllowed st oy.val ox.val || fromTuple) then "-" else
                   match valCmp addr st oy.val ox.val with
                   | none => "TypeError"
                   | some c => if hasPtr st ox.val then (if c = 0 then "0" else "ne") else toString (sign c)
@@ -509,20 +526,18 @@ def step (st : Store) (stats : Stats) (toks : List String) : IO (Store × Stats)
       | some x, some y =>
         match st.get x, st.get y with
         | some ox, some oy =>
-          let ok := match ox.val, oy.val with
-            | .sc s, .sc t => s.ty = t.ty && s.ty ≠ .typ
-            | .seq k _ _, .seq k' _ _ => k = k'
-            | .tuple _, .tuple _ => true
-            | .table _ _ _, .table _ _ _ => true
-            | .tree _ _ _, .tree _ _ _ => true
-            | _, _ => false
-          if !ok then bad else
-          -- `memswap` as extracted from the source, run on the two structs
+          -- any two objects other than Type objects: `swap` tests the two types, then `memswap` as extracted from the source runs
+          -- on the two structs
+          let isTyp := fun (v : Val) => match v with | .sc (.typ _) => true | _ => false
+          if isTyp ox.val || isTyp oy.val then bad else
           match swapObjs st x y with
-          | none =>
+          | .error .undefined =>
             IO.println s!"O swap {x} {y} the-structs-hold-a-mixture"
             return (st, { stats with swaps := stats.swaps + 1, swapMixed := stats.swapMixed + 1 })
-          | some st =>
+          | .error e =>
+            IO.println s!"O swap {x} {y} {e.name} va={dumpVal st ox.val} ha={hashStr st ox.val} vb={dumpVal st oy.val} hb={hashStr st oy.val}"
+            return (st, { stats with swaps := stats.swaps + 1 })
+          | .ok st =>
           match st.get x, st.get y with
           | some nx, some ny =>
             IO.println s!"O swap {x} {y} ok va={dumpVal st nx.val} ha={hashStr st nx.val} vb={dumpVal st ny.val} hb={hashStr st ny.val}"
@@ -540,7 +555,7 @@ def step (st : Store) (stats : Stats) (toks : List String) : IO (Store × Stats)
       match parseId a with
       | some id =>
         match st.get id with
-        | some ⟨_, .seq .array ety items⟩ =>
+        | some ⟨_, .seq .array ety items, _⟩ =>
           if items.any (fun s => match s with | .float b => floatIsNaN b | _ => false) then bad else
           -- the quicksort of src/Array.c; every element move is `swap` = `memswap` as extracted, on the element structs
           match arraySort addr items with
@@ -566,7 +581,7 @@ where
         | none => some none
         | some s => (parseI64 s).map fun v => some v.toInt
       match st.get cid, idxv with
-      | some ⟨cls, .seq kind ety items⟩, some iv =>
+      | some ⟨cls, .seq kind ety items, _⟩, some iv =>
         match parseSpec st x with
         | some s =>
           if s.ty ≠ ety then bad else
@@ -587,19 +602,22 @@ where
                 if j < 0 || j ≥ n then do observe st op cid (some .indexError); return (st, stats)
                 else let st := setVal st cid (.seq kind ety (insertAt items j.toNat s)); observe st op cid none; return (st, stats)
         | none => let _ := cls; bad
-      | some ⟨cls, .tuple ids⟩, some iv =>
+      | some ⟨cls, .tuple ids, bf⟩, some iv =>
         match parseId x with
         | some e =>
           if !tupleItemOk st e || ids.contains e then bad else
           let n := ids.length
+          let und : IO (Store × Stats) := do IO.println s!"O {op} {cid} undefined"; return (st, stats)
           match iv with
           | none =>
             if cls = .stack then do observe st op cid (some .valueError); return (st, stats)
+            else if bf = .stack then und
             else let st := setVal st cid (.tuple (ids ++ [e])); observe st op cid none; return (st, stats)
           | some i =>
             let j := normIdx n i 0
             if j < 0 || j ≥ n then do observe st op cid (some .indexError); return (st, stats)
             else if cls = .stack then do observe st op cid (some .valueError); return (st, stats)
+            else if bf = .stack then und
             else let st := setVal st cid (.tuple (insertAt ids j.toNat e)); observe st op cid none; return (st, stats)
         | none => bad
       | _, _ => bad
@@ -612,7 +630,7 @@ where
         | none => some none
         | some s => (parseI64 s).map fun v => some v.toInt
       match st.get cid, idxv with
-      | some ⟨cls, v⟩, some iv =>
+      | some ⟨cls, v, bf⟩, some iv =>
         let n := match v with | .seq _ _ items => items.length | .tuple ids => ids.length | _ => 0
         if !isSeqVal v then bad else
         let pos : Option Nat := match iv with
@@ -628,6 +646,7 @@ where
           | .seq .list ety items => let st := setVal st cid (.seq .list ety (removeAt items p)); observe st op cid none; return (st, stats)
           | .tuple ids =>
             if cls = .stack then do observe st op cid (some .valueError); return (st, stats)
+            else if bf = .stack then do IO.println s!"O {op} {cid} undefined"; return (st, stats)
             else let st := setVal st cid (.tuple (removeAt ids p)); observe st op cid none; return (st, stats)
           | _ => bad
       | _, _ => bad
@@ -636,7 +655,7 @@ where
     match parseId c, parseSpec st x with
     | some cid, some s =>
       match st.get cid with
-      | some ⟨cls, v⟩ =>
+      | some ⟨cls, v, bf⟩ =>
         match v with
         | .sc _ => bad
         | .seq kind ety items =>
@@ -657,6 +676,7 @@ where
             match found with
             | some i =>
               if cls = .stack then do observe st "rem" cid (some .valueError); return (st, stats)
+              else if bf = .stack then do IO.println s!"O rem {cid} undefined"; return (st, stats)
               else let st := setVal st cid (.tuple (removeAt ids i)); observe st "rem" cid none; return (st, stats)
             | none => observe st "rem" cid (some .valueError); return (st, stats)
         | .table kt vt t =>
@@ -687,7 +707,7 @@ where
     match parseId c, nv with
     | some cid, some n =>
       match st.get cid with
-      | some ⟨cls, v⟩ =>
+      | some ⟨cls, v, bf⟩ =>
         match v with
         | .sc _ => bad
         | .seq .array ety items =>
@@ -697,7 +717,9 @@ where
           let st := setVal st cid (.seq .list ety (if n = 0 then [] else items.take n)); observe st op cid none; return (st, stats)
         | .tuple ids =>
           if cls = .stack then do observe st op cid (some .valueError); return (st, stats)
-          else if n < ids.length then let st := setVal st cid (.tuple (ids.take n)); observe st op cid none; return (st, stats)
+          else if n < ids.length then
+            if bf = .stack then do IO.println s!"O {op} {cid} undefined"; return (st, stats)
+            else let st := setVal st cid (.tuple (ids.take n)); observe st op cid none; return (st, stats)
           else observe st op cid (some .formatError); return (st, stats)
         | .table kt vt t =>
           if n = 0 then let st := setVal st cid (.table kt vt Table.empty); observe st op cid none; return (st, stats)
@@ -718,7 +740,7 @@ def stepSet (st : Store) (c k v : String) : IO Store := do
   | none => bad
   | some cid =>
     match st.get cid with
-    | some ⟨_, .seq kind ety items⟩ =>
+    | some ⟨_, .seq kind ety items, _⟩ =>
       match HashDrv.parseI64 k, HashDrv.parseSpec st v with
       | some i, some s =>
         if s.ty ≠ ety then bad else
@@ -727,13 +749,13 @@ def stepSet (st : Store) (c k v : String) : IO Store := do
         else
           let st := HashDrv.setVal st cid (.seq kind ety (items.set j.toNat s)); HashDrv.observe st "set" cid none; return st
       | _, _ => bad
-    | some ⟨_, .table kt vt t⟩ =>
+    | some ⟨_, .table kt vt t, _⟩ =>
       match HashDrv.parseSpec st k, HashDrv.parseSpec st v with
       | some ks, some vs =>
         if ks.ty ≠ kt || vs.ty ≠ vt then bad else
         let st := HashDrv.setVal st cid (.table kt vt (tableSetW HashDrv.addr (layoutOf kt vt) t ks vs)); HashDrv.observe st "set" cid none; return st
       | _, _ => bad
-    | some ⟨_, .tree kt vt es⟩ =>
+    | some ⟨_, .tree kt vt es, _⟩ =>
       match HashDrv.parseSpec st k, HashDrv.parseSpec st v with
       | some ks, some vs =>
         if ks.ty ≠ kt || vs.ty ≠ vt then bad else
@@ -764,17 +786,17 @@ def main (args : List String) : IO Unit := do
     if nops % 4 != 0 then continue
     for id in ((toks.drop 1).take 2).filterMap HashDrv.parseId do
       match st.get id with
-      | some ⟨_, .tree kt vt t⟩ =>
+      | some ⟨_, .tree kt vt t, _⟩ =>
         let es := t.toList
         if es.length > 32 && nops % 16 != 0 then continue
         stats := { stats with treeStates := stats.treeStates + 1, treeBad := stats.treeBad + (if treeSeqAdjB HashDrv.addr es then 0 else 1),
                               unsized := stats.unsized + (if es.all (entrySizedB (layoutOf kt vt)) then 0 else 1) }
-      | some ⟨_, .table kt vt t⟩ =>
+      | some ⟨_, .table kt vt t, _⟩ =>
         if t.nitems > 32 && nops % 16 != 0 then continue
         stats := { stats with tableStates := stats.tableStates + 1,
                               tableBad := stats.tableBad + (if entryKeysDistinctB HashDrv.addr t.entries && t.slots.size == t.nslots then 0 else 1),
                               unsized := stats.unsized + (if t.entriesInSlotOrder.all (slotSizedB (layoutOf kt vt)) then 0 else 1) }
-      | some ⟨_, .seq _ ety items⟩ =>
+      | some ⟨_, .seq _ ety items, _⟩ =>
         stats := { stats with unsized := stats.unsized + (if items.all (sizedB (tyWords ety)) then 0 else 1) }
       | _ => pure ()
   IO.println s!"S float_pairs={stats.floatPairs} float_src_ne_model={stats.floatSrcNeModel} float_sf_ne_hw={stats.floatSfNeHw} float_near_pairs={stats.floatNear} self_assigns={stats.selfAssigns} lookups={stats.lookups}"
